@@ -114,7 +114,7 @@ class C08(Check):
     floor_nontrivial = 10
     required_counters = ("crash_points_injected", "distinct_states_probed", "recovery_probes")
     shards = (14, 16)
-    budget = (150, 1200)
+    budget = (300, 1200)
     exhaustive = True
 
     def cases(self, tier, seed):
